@@ -27,13 +27,20 @@ pub struct Pick {
 }
 
 #[derive(Serialize, Deserialize, Clone, Debug)]
-pub struct Case {
-    /// which node has the greater id plays "A"
-    pub swap: bool,
-    pub picks: Vec<Pick>,
-    pub max_dials: u8,
-    /// order in which the remaining in-flight items are drained at the end
-    pub drain: Vec<u16>,
+pub enum Case {
+    /// generated schedule: each pick selects one of the currently enabled events
+    Random {
+        /// which node has the greater id plays "node 0"
+        swap: bool,
+        picks: Vec<Pick>,
+        max_dials: u8,
+        /// order in which the remaining in-flight items are drained at the end
+        drain: Vec<u16>,
+    },
+    /// one explicit schedule: the index of the chosen enabled event at every step (then always 0)
+    Exact { swap: bool, max_dials: u8, choices: Vec<u16> },
+    /// every schedule that extends `prefix`, enumerated depth-first by re-execution
+    Exhaustive { swap: bool, max_dials: u8, prefix: Vec<u16> },
 }
 
 pub struct Fixture {
@@ -70,14 +77,6 @@ enum Item {
     AcceptEnd { at: usize, session: Option<u32>, rejected: Option<AbortReason> },
 }
 
-fn reason_of(f: u8) -> SyncReason {
-    match f % 3 {
-        0 => SyncReason::NewNeighbor,
-        1 => SyncReason::SyncReport,
-        _ => SyncReason::DirectJoin,
-    }
-}
-
 impl Prop for C11 {
     type Case = Case;
     const ID: &'static str = "C11";
@@ -86,7 +85,7 @@ impl Prop for C11 {
         "two real live actors (real endpoints on loopback, gossip, blob store, store actors; ids in both orders) and one syncing \
          document; the harness owns the network: in-flight requests, replies, connector ends and acceptor ends of sessions. At \
          every step proptest picks one enabled event: a dial decision (new neighbour / sync report / direct join; <= 4, thorough \
-         6 dials), delivering or losing a request, delivering a reply (allow -> session established, reject -> remote abort) or \
+         6 dial decisions; ALL schedules with <= 2 dial decisions are enumerated exhaustively by re-execution, 73 872 schedules), delivering or losing a request, delivering a reply (allow -> session established, reject -> remote abort) or \
          losing it, ending either end of a session with success or an error; results are fed to the real completion handlers and \
          dials are observed from the real sync_with_peer. Invariants: (I1) never two sessions in progress for the pair, (I2) two \
          simultaneous requests delivered back to back: exactly one allowed, (I3) resync dials only from a completion handler, only \
@@ -101,10 +100,24 @@ impl Prop for C11 {
         tier.pick(16_000, 400_000)
     }
 
+    fn enumerate(tier: Tier) -> Vec<Case> {
+        // all schedules with <= 2 dial decisions (3 would be > 10^8 schedules by re-execution), split into subtrees by their first two choices
+        let max_dials = tier.pick(2, 2);
+        let mut v = vec![];
+        for swap in [false, true] {
+            for a in 0..4u16 {
+                for b in 0..6u16 {
+                    v.push(Case::Exhaustive { swap, max_dials, prefix: vec![a, b] });
+                }
+            }
+        }
+        v
+    }
+
     fn strategy(tier: Tier) -> BoxedStrategy<Case> {
         let max = tier.pick(24, 40);
         (any::<bool>(), vec((any::<u16>(), any::<u8>()).prop_map(|(which, flavour)| Pick { which, flavour }), 1..=max), tier.pick(2u8..=4, 2u8..=6), vec(any::<u16>(), 0..8))
-            .prop_map(|(swap, picks, max_dials, drain)| Case { swap, picks, max_dials, drain })
+            .prop_map(|(swap, picks, max_dials, drain)| Case::Random { swap, picks, max_dials, drain })
             .boxed()
     }
 
@@ -165,13 +178,84 @@ struct World {
     last_event_was_dial_of: Option<u32>,
 }
 
+/// How the next event is chosen.
+enum Chooser<'a> {
+    Picks { picks: std::slice::Iter<'a, Pick>, drain: &'a [u16], drain_i: usize },
+    /// explicit indices, then always the first enabled event; records how many events were enabled at each step
+    Exact { choices: &'a [u16], lens: Vec<usize>, step: usize },
+}
+
 fn run(ctx: &mut Ctx, c: &Case, o: &mut Outcome) -> R<()> {
     fixture(ctx)?;
     let mut fx = ctx.fixtures.remove("c11").ok_or("fixture")?;
     let res = {
         let f: &mut Fixture = fx.downcast_mut::<Fixture>().ok_or("fixture type")?;
         let rt = &ctx.rt;
-        rt.block_on(run_inner(f, c, o))
+        rt.block_on(async {
+            match c {
+                Case::Random { swap, picks, max_dials, drain } => {
+                    let mut ch = Chooser::Picks { picks: picks.iter(), drain, drain_i: 0 };
+                    run_inner(f, *swap, *max_dials, &mut ch, o).await
+                }
+                Case::Exact { swap, max_dials, choices } => {
+                    let mut ch = Chooser::Exact { choices, lens: vec![], step: 0 };
+                    run_inner(f, *swap, *max_dials, &mut ch, o).await
+                }
+                Case::Exhaustive { swap, max_dials, prefix } => {
+                    o.class("exhaustive-subtree");
+                    let mut choices: Vec<u16> = prefix.clone();
+                    let mut n = 0u64;
+                    loop {
+                        let mut trial = Outcome::default();
+                        let mut ch = Chooser::Exact { choices: &choices, lens: vec![], step: 0 };
+                        run_inner(f, *swap, *max_dials, &mut ch, &mut trial).await?;
+                        let Chooser::Exact { lens, .. } = ch else { unreachable!() };
+                        // a prefix choice beyond the enabled set: empty subtree
+                        if prefix.iter().enumerate().any(|(i, c)| lens.get(i).map(|l| *c as usize >= *l).unwrap_or(true)) {
+                            break;
+                        }
+                        n += 1;
+                        for cl in &trial.classes {
+                            o.class(cl);
+                        }
+                        if trial.nontrivial {
+                            o.nontrivial = true;
+                        }
+                        if let Some(fl) = trial.failure {
+                            let mut full = choices.clone();
+                            full.resize(lens.len(), 0);
+                            o.fail(fl.sig, format!("{} [schedule: Exact {{ swap: {swap}, max_dials: {max_dials}, choices: {:?} }}]", fl.detail, full));
+                            break;
+                        }
+                        // next schedule in depth-first order: bump the deepest choice that has a sibling
+                        let mut full = choices.clone();
+                        full.resize(lens.len(), 0);
+                        let mut next = None;
+                        for i in (prefix.len()..full.len()).rev() {
+                            if (full[i] as usize) + 1 < lens[i] {
+                                next = Some(i);
+                                break;
+                            }
+                        }
+                        match next {
+                            None => break,
+                            Some(i) => {
+                                full.truncate(i + 1);
+                                full[i] += 1;
+                                choices = full;
+                            }
+                        }
+                        if n > 400_000 {
+                            // never expected with <= 2 dial decisions (measured: 73 872 schedules in total); do not claim the subtree
+                            o.class("exhaustive-subtree-TRUNCATED");
+                            break;
+                        }
+                    }
+                    o.count("schedules_enumerated_exhaustively", n);
+                    Ok(())
+                }
+            }
+        })
     };
     ctx.fixtures.insert("c11", fx);
     res
@@ -202,7 +286,7 @@ fn note_followup(w: &mut World, node: usize, started: bool, o: &mut Outcome, wha
     }
 }
 
-async fn run_inner(f: &mut Fixture, c: &Case, o: &mut Outcome) -> R<()> {
+async fn run_inner(f: &mut Fixture, swap: bool, max_dials: u8, chooser: &mut Chooser<'_>, o: &mut Outcome) -> R<()> {
     f.counter += 1;
     let mut nsb = [0x5Cu8; 32];
     nsb[..8].copy_from_slice(&f.counter.to_le_bytes());
@@ -214,7 +298,7 @@ async fn run_inner(f: &mut Fixture, c: &Case, o: &mut Outcome) -> R<()> {
     for a in f.actors.iter_mut() {
         a.verif_insert_namespace(ns);
     }
-    let map = if c.swap { [1, 0] } else { [0, 1] };
+    let map = if swap { [1, 0] } else { [0, 1] };
     o.class(if f.ids[map[0]].as_bytes() > f.ids[map[1]].as_bytes() { "node0-has-greater-id" } else { "node0-has-smaller-id" });
     let mut w = World {
         ns,
@@ -247,8 +331,6 @@ async fn run_inner(f: &mut Fixture, c: &Case, o: &mut Outcome) -> R<()> {
         }
     }
 
-    let mut picks = c.picks.iter();
-    let mut drain_i = 0usize;
     let mut draining = false;
     let mut guard = 0;
     loop {
@@ -257,59 +339,89 @@ async fn run_inner(f: &mut Fixture, c: &Case, o: &mut Outcome) -> R<()> {
             o.fail("C11/no-quiescence", "the world does not become quiet within 400 events".to_string());
             return Ok(());
         }
-        // enabled events: 0..=1 dial at node n (while budget), then one or two per in-flight item
+        // enabled events, flavours spelled out: dial at node n for a reason (while budget), deliver an in-flight item
+        // (session ends: successfully or with an error), lose a request or an allow reply
         #[derive(Clone, Debug)]
         enum Ev {
-            Dial(usize),
-            Deliver(usize),
+            Dial(usize, SyncReason),
+            Deliver(usize, bool),
             Lose(usize),
         }
         let mut enabled: Vec<Ev> = vec![];
-        if !draining && w.dials < c.max_dials {
-            enabled.push(Ev::Dial(0));
-            enabled.push(Ev::Dial(1));
+        if !draining && w.dials < max_dials {
+            for n in 0..2 {
+                enabled.push(Ev::Dial(n, SyncReason::NewNeighbor));
+                enabled.push(Ev::Dial(n, SyncReason::SyncReport));
+            }
         }
         for (i, it) in w.inflight.iter().enumerate() {
-            enabled.push(Ev::Deliver(i));
+            enabled.push(Ev::Deliver(i, true));
             match it {
                 Item::Request { .. } => enabled.push(Ev::Lose(i)),
                 Item::Reply { allow: Some(_), .. } => enabled.push(Ev::Lose(i)),
+                Item::ConnEnd { .. } => enabled.push(Ev::Deliver(i, false)),
+                Item::AcceptEnd { session: Some(_), .. } => enabled.push(Ev::Deliver(i, false)),
                 _ => {}
             }
         }
-        let (ev, flavour) = if !draining {
-            match picks.next() {
-                Some(p) if !enabled.is_empty() => (enabled[idx(p.which, enabled.len())].clone(), p.flavour),
-                _ => {
-                    draining = true;
-                    continue;
+        let ev = match chooser {
+            Chooser::Picks { picks, drain, drain_i } => {
+                if !draining {
+                    match picks.next() {
+                        Some(p) if !enabled.is_empty() => {
+                            let mut ev = enabled[idx(p.which, enabled.len())].clone();
+                            if let Ev::Dial(n, _) = ev {
+                                if p.flavour % 3 == 2 {
+                                    ev = Ev::Dial(n, SyncReason::DirectJoin);
+                                }
+                            }
+                            ev
+                        }
+                        _ => {
+                            draining = true;
+                            continue;
+                        }
+                    }
+                } else {
+                    if w.inflight.is_empty() {
+                        break;
+                    }
+                    let sel = drain.get(*drain_i).copied().unwrap_or(0);
+                    *drain_i += 1;
+                    // while draining only deliveries (in the generated order), with successful completions
+                    Ev::Deliver(idx(sel, w.inflight.len()), true)
                 }
             }
-        } else {
-            if w.inflight.is_empty() {
-                break;
+            Chooser::Exact { choices, lens, step } => {
+                if enabled.is_empty() {
+                    break;
+                }
+                lens.push(enabled.len());
+                let c = choices.get(*step).copied().unwrap_or(0) as usize;
+                *step += 1;
+                if c >= enabled.len() {
+                    // not a schedule (only happens for subtree prefixes): stop quietly
+                    return Ok(());
+                }
+                enabled[c].clone()
             }
-            let sel = c.drain.get(drain_i).copied().unwrap_or(0);
-            drain_i += 1;
-            // while draining only deliveries (in the generated order), with successful completions
-            (Ev::Deliver(idx(sel, w.inflight.len())), 0)
         };
         w.step += 1;
         let dialled_before = w.last_event_was_dial_of.take();
         match ev {
-            Ev::Dial(n) => {
+            Ev::Dial(n, reason) => {
                 let me = w.map[n];
                 let peer = f.ids[w.map[1 - n]];
-                let reason = reason_of(flavour);
                 let other_running = is_running(&snapshot(f, &w, 1 - n).await);
                 let mine_before = snapshot(f, &w, n).await;
                 let started = f.actors[me].verif_sync_with_peer(w.ns, peer, reason);
+                // every dial decision counts against the budget, also a refused one
+                w.dials += 1;
                 if started {
                     if is_running(&mine_before) {
                         o.fail("C11/dial-while-running", format!("step {}: node {n} started a dial while its slot was {:?}", w.step, mine_before));
                         return Ok(());
                     }
-                    w.dials += 1;
                     let id = w.next_id;
                     w.next_id += 1;
                     if w.inflight.iter().any(|i| matches!(i, Item::Request { .. })) {
@@ -367,7 +479,7 @@ async fn run_inner(f: &mut Fixture, c: &Case, o: &mut Outcome) -> R<()> {
                     _ => {}
                 }
             }
-            Ev::Deliver(i) => {
+            Ev::Deliver(i, ok) => {
                 let it = w.inflight.remove(i);
                 match it {
                     Item::Request { from, reason, id } => {
@@ -440,7 +552,6 @@ async fn run_inner(f: &mut Fixture, c: &Case, o: &mut Outcome) -> R<()> {
                         let me = w.map[at];
                         let peer = f.ids[w.map[1 - at]];
                         w.in_progress.retain(|x| *x != session);
-                        let ok = flavour % 3 != 2;
                         let res = if ok { Ok(finished(w.ns, peer)) } else { Err(ConnectError::Sync { error: anyhow::anyhow!("sync failed") }) };
                         let started = f.actors[me].verif_connect_finished(w.ns, peer, reason, res).await;
                         note_followup(&mut w, at, started, o, "the connector's end");
@@ -453,7 +564,7 @@ async fn run_inner(f: &mut Fixture, c: &Case, o: &mut Outcome) -> R<()> {
                         let res = match (session, rejected) {
                             (Some(s), _) => {
                                 w.in_progress.retain(|x| *x != s);
-                                if flavour % 3 != 2 {
+                                if ok {
                                     Ok(finished(w.ns, peer))
                                 } else {
                                     Err(AcceptError::Sync { peer, namespace: Some(w.ns), error: anyhow::anyhow!("sync failed") })
